@@ -102,6 +102,12 @@ Theorem parse_insn_total : forall dbg be asize aarch64 off bs,
   tame bs (parse_insn dbg be asize aarch64 off bs).
 Proof. exact parse_insn_tame. Qed.
 
+(* impl PartialEq for RegisterRuleMap (used by UnwindTableRow ==): with unique registers, `==` holds exactly
+   when every register has the same rule — the order of the entries (swap_remove!) does not matter *)
+Theorem rule_map_eq_order_insensitive : forall a b,
+  nodup a -> nodup b -> (rm_eq a b = true <-> same_map a b).
+Proof. exact rm_eq_same_map. Qed.
+
 (* ------------------------------------------------------------------ examples *)
 (* the hypotheses are satisfiable by non-trivial instances, and the limits are hit exactly *)
 
@@ -155,6 +161,11 @@ Example decode_hypotheses_hold :
   wire_ok 8 (WDefCfaSf 7 (-9223372036854775808)) = true /\
   wire_ok 1 (WSetLoc 255) = true /\ wire_ok 1 (WSetLoc 256) = false.
 Proof. repeat split. Qed.
+
+Example rule_map_eq_example :
+  nodup [(1, ROffset 8); (2, RSameValue)] /\ nodup [(2, RSameValue); (1, ROffset 8)] /\
+  rm_eq [(1, ROffset 8); (2, RSameValue)] [(2, RSameValue); (1, ROffset 8)] = true.
+Proof. repeat split; repeat constructor; cbn; intuition discriminate. Qed.
 
 (* statement pins *)
 Check insn_decode : forall dbg be asize aarch64 off w rest,
